@@ -1052,12 +1052,20 @@ def _generate_structure_virtual_field_methods(enclosing_type_name, field_ir, ir)
             )
         else:
             value_in_range = "true"
+        # The text reader must match the field's logical type, like the text
+        # writer chosen below.
+        read_from_text_stream_function = {
+            "integer": "ReadIntegerFromTextStream",
+            "boolean": "ReadBooleanFromTextStream",
+            "enumeration": "ReadEnumViewFromTextStream",
+        }[field_ir.read_transform.type.which_type]
         write_methods = code_template.format_template(
             _TEMPLATES.structure_single_virtual_field_write_methods,
             logical_type=logical_type,
             destination=destination,
             transform=transform,
             value_in_range=value_in_range,
+            read_from_text_stream_function=read_from_text_stream_function,
         )
     else:
         write_methods = ""
